@@ -217,6 +217,12 @@ type connObs struct {
 // runRound runs the connection scripts concurrently against the rig and judges each.
 // Returns the number of violations reported.
 func c01Round(r *fw.Run, g *Rig, prop string, cc *c01Case, exact bool) int {
+	return c01RoundOpt(r, g, prop, cc, exact, true)
+}
+
+// c01RoundOpt: barrier=false skips the barrier probe and the idle wait (for services that may legitimately stop
+// by themselves right after the round).
+func c01RoundOpt(r *fw.Run, g *Rig, prop string, cc *c01Case, exact bool, barrier bool) int {
 	n := len(cc.Conns)
 	obs := make([]connObs, n)
 	models := make([]*MOut, n)
@@ -270,7 +276,12 @@ func c01Round(r *fw.Run, g *Rig, prop string, cc *c01Case, exact bool) int {
 	// Barrier: the accept queue is FIFO and the accept loop counts a connection before it accepts the
 	// next one, so once a connection made now has been served, every connection of this round (also
 	// those the client closed before they were accepted) has been accepted and counted.
-	barrierErr := g.Probe()
+	var barrierErr error
+	if barrier {
+		barrierErr = g.Probe()
+	} else {
+		time.Sleep(20 * time.Millisecond)
+	}
 	for try := 0; try < 5 && barrierErr != nil; try++ {
 		if _, wrong := barrierErr.(*probeMismatch); wrong {
 			break
@@ -278,7 +289,7 @@ func c01Round(r *fw.Run, g *Rig, prop string, cc *c01Case, exact bool) int {
 		time.Sleep(time.Duration(try+1) * 200 * time.Millisecond)
 		barrierErr = g.Probe()
 	}
-	idle := g.WaitIdle(20 * time.Second)
+	idle := !barrier || g.WaitIdle(20*time.Second)
 	evs, gmax := g.Log.Take()
 	byPeer := map[string][]Ev{}
 	var order []string
